@@ -59,8 +59,10 @@ inductive Call (V O Q : Type) where
   | getF2x (q : Q)
 
 inductive Out (V X W A Y : Type) where
-  | gen (id : Nat)
-  | sent
+  /-- the handle, and column 0 of the arrays `generator()` hands back -/
+  | gen (id : Nat) (x0 : X) (r0 : W)
+  /-- `send` returns nothing; the caller sees the column just written in the shared arrays -/
+  | sent (col : Nat) (x : X) (r : W) (f : V)
   | err (e : ApiErr)
   | sol (r : FinRec V X W A)
   | flex (y : Y)
@@ -73,14 +75,17 @@ def objStep (S : Solver V X W A O Q Y) (ob : Obj V X W) :
   | .generator nt o f0 =>
       ({ count := ob.count + 1
          gens := upd ob.gens ob.count (some ⟨nt, false, ⟨false, S.start o f0⟩⟩)
-         slot := some ob.count }, .gen ob.count)
+         slot := some ob.count },
+       .gen ob.count ((S.start o f0).x 0) ((S.start o f0).r 0))
   | .send g op =>
       match ob.gens g with
       | none => (ob, .err .attr)
       | some gi =>
         if gi.dead then (ob, .err .stop)
         else match stepApi S.L gi.nt gi.a op with
-          | .ok a' => ({ ob with gens := upd ob.gens g (some { gi with a := a' }) }, .sent)
+          | .ok a' =>
+            ({ ob with gens := upd ob.gens g (some { gi with a := a' }) },
+             .sent a'.s.cur (a'.s.x a'.s.cur) (a'.s.r a'.s.cur) (a'.s.force a'.s.cur))
           | .error e =>
             ({ ob with gens := upd ob.gens g (some { gi with dead := true }) }, .err (.ofErr e))
   | .tsolve nt o force =>
@@ -126,11 +131,16 @@ def specStep (S : Solver V X W A O Q Y) (sp : Spec V O) :
   | .generator nt o f0 =>
       ({ count := sp.count + 1
          gens := upd sp.gens sp.count (some ⟨nt, o, f0, []⟩)
-         slot := some sp.count }, .gen sp.count)
+         slot := some sp.count },
+       .gen sp.count ((S.start o f0).x 0) ((S.start o f0).r 0))
   | .send g op =>
       match sp.gens g with
       | none => (sp, .err .attr)
-      | some sg => ({ sp with gens := upd sp.gens g (some { sg with ops := sg.ops ++ [op] }) }, .sent)
+      | some sg =>
+        let sg' : SpecGen V O := { sg with ops := sg.ops ++ [op] }
+        let s' := sg'.state S
+        ({ sp with gens := upd sp.gens g (some sg') },
+         .sent s'.cur (s'.x s'.cur) (s'.r s'.cur) (s'.force s'.cur))
   | .tsolve nt o force =>
       (sp, .sol ⟨nt, tsolve S.L S.acc force (S.x0 o force), none⟩)
   | .finalize gf =>
